@@ -18,7 +18,9 @@ OffsQuick == {-1, 0}
 OffsThorough == {-2, -1, 0, 2}
 StructK == [day |-> 2, hour |-> 1, minute |-> 0, tenmin |-> 1, horizon |-> 0, minfail |-> 1, replacement |-> 1, testwindow |-> 0, connupd |-> 1]
 SmallK == [day |-> 2, hour |-> 1, minute |-> 0, tenmin |-> 1, horizon |-> 2, minfail |-> 1, replacement |-> 2, testwindow |-> 0, connupd |-> 1]
+\* a3 stands for an address whose class differs from its network (an IPv6 address with an embedded IPv4 address)
 MCUni == [net |-> [a \in Addrs |-> MCNets[a]],
+          cls |-> [a \in Addrs |-> IF a = "a3" THEN "ipv4" ELSE MCNets[a]],
           routable |-> [a \in Addrs |-> a \notin Unroutable],
           self |-> [a \in Addrs |-> IF a = "a1" THEN "s1" ELSE "none"]]
 Buckets == 0..NewBuckets - 1
